@@ -25,29 +25,12 @@ func (g *c19G) knownName(name string) string {
 
 // applyKnown rewrites known-finding shapes in the (possibly mutated) fields of a request.
 func (g *c19G) applyKnown(r c19Route, fs []c19KV) {
-	if r.Path == "/graph/actions/find-path" && verifkit.Known("find-path-unbounded-depth") {
-		for i := range fs {
-			var d float64
-			if fs[i].k == "max_depth" && json.Unmarshal([]byte(fs[i].v), &d) == nil && d > 100000 {
-				fs[i].v = "7"
-				g.excluded = append(g.excluded, "find-path-unbounded-depth")
-			}
+	for i := range fs {
+		if k := c19KnownExtreme(r.Path, fs[i].k, fs[i].v); k != "" && verifkit.Known(k) {
+			fs[i].v = "2"
+			g.excluded = append(g.excluded, k)
 		}
-	}
-	if c19IsCreate(r) {
-		for i := range fs {
-			// finding "hnsw-params-unvalidated": m = 1 makes 1/ln(m) infinite; an
-			// m or ef_construction near the int64 range overflows slice capacities
-			if (fs[i].k == "m" || fs[i].k == "ef_construction") && verifkit.Known("hnsw-params-unvalidated") {
-				var m float64
-				if json.Unmarshal([]byte(fs[i].v), &m) == nil && ((fs[i].k == "m" && m == 1) || m > 1e12) {
-					fs[i].v = "2"
-					g.excluded = append(g.excluded, "hnsw-params-unvalidated")
-				}
-			}
-			if fs[i].k != "index_name" {
-				continue
-			}
+		if c19IsCreate(r) && fs[i].k == "index_name" {
 			var name string
 			if json.Unmarshal([]byte(fs[i].v), &name) == nil {
 				if n2 := g.knownName(name); n2 != name {
@@ -87,4 +70,22 @@ func (g *c19G) knownTarget(target string) string {
 		return b.String() + "?" + q
 	}
 	return b.String()
+}
+
+// c19KnownExtreme names the known finding a (route, field, value) combination
+// belongs to ("" = none). Used by the deterministic sweep.
+func c19KnownExtreme(path, field, val string) string {
+	var x float64
+	isNum := json.Unmarshal([]byte(val), &x) == nil
+	switch {
+	case (path == "/vector/indexes" || path == "/vector/actions/create") && (field == "m" || field == "ef_construction") && isNum && ((field == "m" && x == 1) || x > 1e12):
+		return "hnsw-params-unvalidated"
+	case (strings.HasSuffix(field, "refine_batch_size") || strings.HasSuffix(field, "refine_ef_construction")) && isNum && (x < 0 || x > 1e12):
+		return "maintenance-config-unvalidated"
+	case path == "/vector/actions/search" && strings.HasPrefix(field, "ef_search") && isNum && (x < 0 || x > 1e12):
+		return "ef-search-unvalidated"
+	case path == "/graph/actions/find-path" && strings.HasPrefix(field, "max_depth") && isNum && x > 100000:
+		return "find-path-unbounded-depth"
+	}
+	return ""
 }
